@@ -465,7 +465,7 @@ def register_chain(reg, stubs, world):
                 ('update-keeps-the-record-object-and-its-other-entries', z3.Implies(z3.Not(ow), z3.And(F1 == F0, qforall([k], z3.Implies(
                     z3.Select(P, k) == ABSENT, e1 == z3.Select(m0, k)))))),
                 ('every-name-in-the-file-is-recorded-with-its-text', qforall([k], z3.Implies(z3.Select(P, k) != ABSENT, z3.And(
-                    e1 != ABSENT, V.ref(e1) >= st.ap, eng.get(s1, e1, '_name') == V.str(k),
+                    e1 != ABSENT, V.ref(e1) >= st.ap, V.ref(e1) < s1.ap, eng.get(s1, e1, '_name') == V.str(k),
                     eng.get(s1, e1, '_check_str') == z3.Select(P, k))))),
                 ('rule-store-and-registry-untouched', z3.And(
                     eng.get(s1, s, 'rules') == eng.get(st, s, 'rules'),
@@ -603,6 +603,14 @@ def register_chain2(reg, stubs, world):
         e = z3.Select(m, k)
         return qforall([k], z3.Implies(e != ABSENT, wf_tree(e)), patterns=[e])
 
+    def allocated(eng, st, R, F, C):
+        k = z3.String('al!k')
+        out = []
+        for o in (R, F, C):
+            e = z3.Select(V.m(z3.Select(st.H('$val'), V.ref(o))), k)
+            out.append(z3.And(V.ref(o) < st.ap, qforall([k], z3.Implies(z3.And(e != ABSENT, V.is_obj(e)), V.ref(e) < st.ap), patterns=[e])))
+        return z3.And(out)
+
     def lpf_terms(cx):
         eng, st, s = cx.eng, cx.st0, cx['self']
         g = lambda f: z3.Select(st.H(f), V.ref(s))
@@ -635,6 +643,7 @@ def register_chain2(reg, stubs, world):
                     qforall([k], z3.Implies(e != ABSENT, z3.And(V.ref(e) != V.ref(F), V.ref(e) != V.ref(G), V.ref(e) != V.ref(R))),
                             patterns=[e]))),
                 ('default-rule-is-None-a-string-or-a-check', z3.Or(dr == NONE, V.is_str(dr), eng.isinst(dr, 'BaseCheck'))),
+                ('what-the-stores-and-the-cache-hold-is-allocated', allocated(eng, st, R, F, C)),
                 ('arguments', z3.And(V.is_str(cx['path']), V.is_bool(cx['force_reload']), V.is_bool(cx['overwrite'])))]
 
     def lpf_axioms(cx):
@@ -719,7 +728,8 @@ def register_chain2(reg, stubs, world):
                         z3.Not(fp(V.ref(z3.Select(V.m(eng.val(s1, C)), k)))),
                         V.ref(z3.Select(V.m(eng.val(s1, C)), k)) != V.ref(F1),
                         V.ref(z3.Select(V.m(eng.val(s1, C)), k)) != V.ref(G0))), patterns=[z3.Select(V.m(eng.val(s1, C)), k)])),
-                ('new-objects-lie-below-the-allocation-pointer', z3.And(V.ref(R1) < s1.ap, V.ref(F1) < s1.ap))]
+                ('new-objects-lie-below-the-allocation-pointer', z3.And(V.ref(R1) < s1.ap, V.ref(F1) < s1.ap)),
+                ('what-the-stores-and-the-cache-hold-stays-allocated', allocated(eng, s1, R1, F1, C))]
 
     def lpf_frame(cx, f, old, new):
         # of the objects that existed before: four slots of the enforcer; the cache dict and its entry for this file; in
